@@ -10,6 +10,28 @@ GUARD = 'KOPF_VERIF_TRACE'
 
 # property id -> (technique, level text, level note, design ref)
 CHECKS: dict[str, dict[str, str]] = {
+    'C09': dict(
+        technique='TLA+ model of the daemon lifecycle (Daemons.tla) checked exhaustively with TLC; recorded executions of the real operator '
+                  'with scripted daemons checked by TLC against a TLA+ property automaton (DaemonMonitor.tla)',
+        text='TLC explores every interleaving of label toggles, deletion and daemon reactions for one object/one daemon (3 reaction kinds); '
+             'the clauses that hold are invariants, the known families F5 and F18 are shown by witness configurations. Random histories '
+             '(toggles, edits, graceful deletion, forced finalizer removal, operator exit; 1-2 daemons + a timer; obey / needs-cancel / '
+             'swallows-cancel / exits-on-its-own; backoff x timeout) run on the real operator in virtual time; TLC evaluates the C09 clauses '
+             'on every recorded execution and attributes violations to the families. The watchdog turns an event-loop stall into a violation '
+             '(F1, fixed in b6c0de9).',
+        note='coroutine daemons only (sync daemons in threads are not simulated); pause/resume by peering is covered by C13; flag observation '
+             'requires the scripted daemon to wait on `stopped`',
+        ref='DESIGN.md 4/C09'),
+    'C10': dict(
+        technique='explicit TLA+ transcription of the timer loop (Timers.tla) checked exhaustively with TLC; start/end instants of the real '
+                  'timer function in virtual time validated by TLC against the specification (Trace_Timers.tla)',
+        text='FirstRun, NoOverlap, IdleLaw, AfterOk, AfterOkSharp, AfterTemp, AfterExc and PermanentEndsIt hold in every state of the model '
+             '(7 configurations x durations x outcome scripts x change instants, ~3 million states). The real operator runs one timer per '
+             'scenario under a virtual clock; since the specification is deterministic given the environment\'s choices, a trace is accepted '
+             'only if every start instant is exactly the one the laws give. The check showed F2 (fixed: 9a87981) and F1 (fixed: b6c0de9).',
+        note='integer virtual seconds; zero PATCH latency; a change-detecting no-op handler is registered so that the diff-base exists '
+             '(without one every event resets idling: F6, documented)',
+        ref='DESIGN.md 4/C10'),
     'C15': dict(
         technique='TLA+ reference of handler selection (Filters.tla, an executable reading of docs/filters.rst) checked by TLC over the '
                   'declaration x state space; real decorators/registries run on the same space, records judged by TLC; closed-loop stealth traces',
